@@ -335,6 +335,8 @@ DENSITY_CLASSES = {
     'A2': ['-2.7e0', '-2.7E0', '-2.7d0', '-2.7+0'],    # numerically = A: never both for one material in one deck
     'B': ['-1.0', '-1.00'],
     'C': ['5e-2', '5-2', '5E-2', '5d-2'],
+    # a mantissa that ends in 0 in front of a Fortran exponent (the name is normalised in two passes)
+    'L': ['6.40870-2', '6.4087-2', '6.4087e-2'],
     'E': ['-7.8', '-7.80'],
     'F': ['0.0602', '0.06020'],
     'G': ['-1.5', '-1.50'],
@@ -349,7 +351,7 @@ DENSITY_CLASSES = {
 def decorate_materials(deck, rng, classes_for=None, spellings='all'):
     """Give every non-filled cell a material (0, 1, 2) and a density spelling."""
     classes_for = classes_for or {1: [rng.choice(['A', 'A2']), 'B', 'G', 'H', 'H2', 'J'],
-                                  2: ['C', 'E', 'F', 'B', 'I', 'I2', 'K']}     # B: shared by both materials
+                                  2: ['C', 'E', 'F', 'B', 'I', 'I2', 'K', 'L']}     # B: shared by both materials
     values = []
     for c in deck['cells']:
         if c['fill'] or (c['lat'] and c['lunivs']):
